@@ -128,6 +128,23 @@ def run(ctx):
             else:
                 fail(f"self comparison raised {r2[1]}", "validate-raised-" + r2[1])
             ctx.tag("self_compare")
+        if rng.random() < 0.4:
+            # the REFERENCE may hold quantized tensors too (comparing two recipes, a quantized model with itself, a "float" model that already
+            # carries int8 weights): both sides are dequantized before the metric is taken
+            if rng.random() < 0.5:
+                r3 = fv.cmp_validate(ctx, drv, res["out"], res["out"], data, metric)
+                if r3[0] == "ok":
+                    fv.oracle(ctx, res["out"], res["out"], data, metric, r3[1], fail, self_compare=True)
+                else:
+                    fail(f"self comparison of the quantized model raised {r3[1]}", "validate-raised-" + r3[1])
+                ctx.tag("quantized_reference_self_compare")
+            else:
+                r3 = fv.cmp_validate(ctx, drv, res["out"], case.mb, data, metric)
+                if r3[0] == "ok":
+                    fv.oracle(ctx, res["out"], case.mb, data, metric, r3[1], fail)
+                else:
+                    fail(f"validate with the quantized model as the reference raised {r3[1]}", "validate-raised-" + r3[1])
+                ctx.tag("quantized_reference")
     def gen(rng_, i):
         if i % 3 == 2:   # constants exported as signature outputs
             mb, info = gm.gen_model(rng_, n_subgraphs=1, const_output=1.0)
